@@ -58,6 +58,11 @@ DefaultOK(f) ==      \* the default inhabits the declared type
   ELSE IF f.kind = "prim" THEN f.ktype \in KTypes /\ WellTypedPrim(f.ktype, f.dflt)
   ELSE WellTyped(f.sub, f.dflt)
 
+ResolvedOK(f, rd) ==
+  /\ rd.status = "ok" /\ rd.same_class
+  /\ DefaultOK([f EXCEPT !.dflt = rd.value])
+  /\ (f.hasd => rd.value = f.dflt)
+
 FieldFails(c, d) ==
   LET f == d.fs IN
      (IF f.kind = "prim" /\ f.ktype \notin KTypes THEN {"field_kafka_type_unknown"} ELSE {})
@@ -73,6 +78,9 @@ FieldFails(c, d) ==
   \cup (IF f.tag < -1 THEN {"tag_is_not_a_non_negative_integer"} ELSE {})
   \cup (IF f.tag >= 0 /\ ~c.flex THEN {"tag_on_non_flexible_version"} ELSE {})
   \cup (IF f.tag >= 0 /\ ~Resolvable(f) THEN {"tagged_field_without_resolvable_default"} ELSE {})
+  \* what the library resolves as the default of a tagged field (asked twice: before and after every codec was derived)
+  \cup (IF f.tag >= 0 /\ Resolvable(f) /\ (~ResolvedOK(f, d.rd) \/ ~ResolvedOK(f, d.rd_again))
+        THEN {"resolved_tagged_default_does_not_inhabit_type"} ELSE {})
   \cup (IF f.tag >= 0 /\ f.nul /\ f.hasd /\ ~IsNull(f.dflt) THEN {"nullable_tagged_field_with_non_null_default"} ELSE {})
   \cup (IF f.kind = "struct" /\ f.arr /\ ~NonEmptyEncoding(f.sub) THEN {"array_element_may_encode_to_zero_bytes"} ELSE {})
 
